@@ -1,8 +1,11 @@
+#![allow(unexpected_cfgs)]
 // Copyright(C) Facebook, Inc. and its affiliates.
 mod error;
 mod receiver;
 mod reliable_sender;
 mod simple_sender;
+#[cfg(hotstuff_verif)]
+pub mod simnet;
 
 #[cfg(test)]
 #[path = "tests/common.rs"]
